@@ -28,10 +28,21 @@ def run(tier, seed):
                 chk.violation("sanitizer:" + anomaly[4:], res.err[-1500:], {"cmd": res.cmd})
             else:
                 chk.inconc("%s on %s: %s" % (anomaly, res.tag, res.err[-300:]))
+    # routing at the send site, in real runs: every ScheduleNewEvent / queue insertion / MPI send is checked against the LPs the node and
+    # thread really initialised (monitors in hooks/vhook.c); multi-rank layouts so that sends cross every rank boundary in both directions
+    import sim_common
+    import mpi_common
+    chk.soft_fraction = 0.5
+    scases = sim_common.make_cases("C14", tier, seed, 16 if tier == "quick" else 200, variants=(0,), fp_levels=(2, 10, 1), sizes=(0,), threads=[2, 3, 5, 7, 16, 12])
+    sim_common.run_sim_cases(chk, scases, timeout=300)
+    mcases = mpi_common.make_cases("C14", tier, seed, 14 if tier == "quick" else 150, variants=(0,), fault_rates=(0,), layouts=[(2, 1), (3, 1), (2, 2), (4, 1), (3, 2), (2, 3)])
+    for i, c in enumerate(mcases):
+        c["dest"] = (1, 2)[i % 2]   # ring neighbour (always crosses the boundary to the next rank) / uniform
+    mpi_common.run_mpi_cases(chk, mcases, timeout=40 if tier == "quick" else 90, retries=0)
     chk.distinct = chk.stats.get("nontrivial_triples", 0)
     chk.exhaustive = True
     chk.rule = ("every (LPs, ranks<=LPs, threads) triple of the box LPs 1..%d x ranks 1..%d x threads 1..%d is run through the real "
                 "lp_global_init/lp_init/lp_fini for every rank and thread (exhaustive over the box), plus random triples with "
                 "2^20..2^41 LPs checked at partition boundaries only; non-trivial = LPs not divisible by ranks*threads or LPs < threads; "
                 "distinct = the triple itself" % (maxL, maxR, maxT))
-    return chk.finish(min_evals=1000, require={"lp_routings_checked": 10000, "triples_with_thread_clamp": 1})
+    return chk.finish(min_evals=1000, require={"lp_routings_checked": 10000, "triples_with_thread_clamp": 1, "remote_sends": 100, "local_sends": 1000})
